@@ -12,6 +12,47 @@ func registerAll() {
 	reg("S8", "field-write ownership table of PersistentSlabStorage (who may update/delete/replace deltas, cache, counters, codecs)", ruleS8)
 	reg("S9", "observers (everything exported on PersistentSlabStorage except Store/Remove/DropDeltas/commit, and CheckStorageHealth) cannot reach a writer of the write set or of registers", ruleS9)
 
+	reg("G1", "worker effects: the transitive effect set of every goroutine body has no write to storage/container/slab fields, globals or captured variables", ruleG1)
+	reg("G2", "drain before write: maps read by workers are written by the launcher only after a receive loop counted to the number of queued jobs", ruleG2)
+	reg("G3", "goroutine lifecycle: defer wg.Done, wg.Add(n) for n launches, close(results) deferred after wg.Wait, buffered job/result channels", ruleG3)
+
+	reg("D1", "every range over a Go map in deterministic code is collect-then-sort or commutative (accumulation, per-key update, constant/abort return, effect-free calls); order-relaxed routines are unreachable from deterministic entry points", ruleD1)
+	reg("D2", "no ambient nondeterminism: no rand/time/os/unsafe/runtime imports, no %p, no uintptr conversion, no scheduling-dependent select", ruleD2)
+	reg("D3", "seed purity: MapExtraData.Seed and SetSeed arguments derive only from the fresh slab id, an existing seed, a parameter or the decoded register", ruleD3)
+	reg("D4", "pools are state-free: Reset before Pool.Put on every path, Pool.Get only in trivial wrappers, Reset covers every field read", ruleD4)
+
+	reg("G4", "pool discipline: after a non-deferred put no use of the object or its aliases is reachable; with a deferred put no alias is returned, stored, sent or captured", ruleG4)
+	reg("G5", "no package-level variable is written by a function reachable from the API after init", ruleG5)
+
+	const tCFG = "CFG path rules on go/ssa (must-precede, edge dominance, loop-iteration coverage, error-edge reachability)"
+	propTable["C03"] = &PropSpec{
+		ID:    "C03",
+		Rules: []string{"S1", "S2", "S4", "S5"},
+		Explanation: "registers are written or deleted only by routines reachable exclusively through the commit entry points (call-graph closure over every exported/API function); Ledger.SetValue only inside the BaseStorage adapter; every collector of commit keys guards each key by address != AddressUndefined and records every owned key; every completed apply-loop iteration issues a register write; no register-write/encode/worker error is swallowed by a commit that returns nil.",
+		NotDecided: "that every mutated slab has been put into the write set before the API call returns (dirty-marking discipline R1/R2/R4, not yet decided in this revision), that the encoded content equals the in-memory content (C07), determinism (C04).",
+		Technique:  "call-graph reachability (who-may-write-registers) + " + tCFG,
+	}
+	propTable["C04"] = &PropSpec{
+		ID:    "C04",
+		Rules: []string{"D1", "D2", "D3", "D4", "S6", "G2"},
+		Explanation: "no Go-map iteration order can reach results: every map range in deterministic code is collect-then-sort or commutative, order-relaxed routines are unreachable from deterministic entry points; the deterministic commit walks, first to last, a slice that its collector sorts on every path with a comparator that is decided by order abstraction (all 9 address x index orderings) to be ascending (owner, index), with big-endian integer views; worker results are applied by key only after the drain; the map seed derives only from the fresh slab id / an existing seed; pooled objects are Reset before reuse and Reset covers every field read; no clock, randomness, address or scheduling source is imported or used.",
+		NotDecided: "determinism of client Value/TypeInfo encoders and of the CBOR library; byte-identity of two executions as such.",
+		Technique:  "map-range classification over SSA loops, order-abstraction interpretation of the sort comparator, backward slices (seed), import/AST scan",
+	}
+	propTable["C15"] = &PropSpec{
+		ID:    "C15",
+		Rules: []string{"S1", "S2", "S3", "S7", "S8", "S9"},
+		Explanation: "layering of the write-back overlay: lookups consult write set, then read cache (only on the write-set miss edge), then ledger (only on the cache miss edge) and a hit returns the found entry; cache fills are guarded by the cache flag and hold DecodeSlab of the same id; a frozen ownership table says which routine may update / delete / replace each field of PersistentSlabStorage (Store/Remove add to deltas, only register-writing routines retire entries, only DropDeltas/DropCache replace a map, BatchPreload fills only the cache and pre-sizes it only when empty); commit moves an entry to the cache (nil after Remove, the write-set object after Store) and deletes it only on the success edge; temp-address ids never reach a register call; every exported observer is unable to reach a writer of the write set or of registers.",
+		NotDecided: "the value-level state-machine closure (that the sequence of views equals the model for every history).",
+		Technique:  "field-write ownership table + dominance of lookups + call-graph reachability for observers + " + tCFG,
+	}
+	propTable["C16"] = &PropSpec{
+		ID:    "C16",
+		Rules: []string{"G1", "G2", "G3", "G4", "G5", "D4"},
+		Explanation: "every goroutine body's transitive may-effect set has no write to storage, container, slab or global state and no write through captured variables; maps read by workers are written by the launcher only after a receive loop counted to the number of queued jobs; workers defer wg.Done, wg.Add(n) dominates a loop launching n workers, close(results) is deferred after wg.Wait, job/result channels are buffered; after a non-deferred put no use of the pooled object or an alias is reachable (up to re-definition), with a deferred put no alias escapes; objects are Reset before Pool.Put; no package variable can be written after init through any API function.",
+		NotDecided: "sequential equality of the results of a concurrent run (only through C04), races inside client callbacks, retention of pooled objects by callees.",
+		Technique:  "may-effect summaries over the call graph, dominance by drain-loop exits, alias taint for pooled objects",
+	}
 	propTable["C14"] = &PropSpec{
 		ID:    "C14",
 		Rules: []string{"S3", "S4", "S5"},
